@@ -3,16 +3,14 @@ CONSTANTS
   Catalogue <- CatNone
   DiskC = "A"
   DiskR = "A"
-  Feat = {"usage", "stop"}
+  Feat = {"usage", "health", "stop"}
   Feeds <- FeedsTwo
   MaxCum = 1
   Steps = {1}
   Outcomes = {"ok", "fail", "pendok", "hold"}
-  ZeroReports = "keys"
+  ZeroReports = "never"
   RetryFailed = TRUE
-  Faithful = TRUE
-INVARIANTS TypeOK AppliedIsInForce FailedIsRefused EffectiveInForce Conservation NoDoubleCount StopUnhealthy
+  Faithful = FALSE
+INVARIANTS TypeOK AppliedIsInForce FailedIsRefused EffectiveInForce Conservation NoDoubleCount StopUnhealthy StopEnds
 PROPERTIES RefusedKeepsOld StatusProtocol OnlyMessagesApply NoReapply NewHashHandled HealthFollows ReportCarriesAll OnlySentDelivers
 CHECK_DEADLOCK FALSE
-ACTION_CONSTRAINT Dump
-VIEW View
